@@ -162,6 +162,8 @@ Fixpoint count_newlines (s : bytes) (nls since : nat) : nat * nat :=
   end.
 
 Section Subject.
+Variable memo : bool.   (* true = the code as it is; false = scan_to_closing_backtick without its early answer from the
+                           memo (`scanned_for_backticks && backticks[n] <= pos`): the reference for backtick_memo_sound *)
 Variable o : iopts.
 Variable u : oracle.
 Variable inp : bytes.                                  (* Subject.input: the block content, rtrimmed *)
@@ -278,7 +280,7 @@ Fixpoint stcb_loop (rest : bytes) (p run otl : nat) (b : list nat) : option nat 
 (* (endpos, st) ; the position is left to the caller *)
 Definition scan_to_closing_backtick (s : st) (otl : nat) : option nat * st :=
   if Nat.ltb maxbt otl then (None, s)
-  else if scanned s && Nat.leb (nth otl (bt s) 0) (pos s) then (None, s)
+  else if memo && scanned s && Nat.leb (nth otl (bt s) 0) (pos s) then (None, s)
   else
     let '(r, b', sc) := stcb_loop (skipn (pos s) inp) (pos s) 0 otl (bt s) in
     (r, set_bt s b' (scanned s || sc)).
@@ -1313,12 +1315,12 @@ Inductive outcome := Done (ch : list node) (refsize : N) | OutOfScope (what : st
 
 Definition has_nul (s : bytes) : bool := existsb (beqb x00) s.
 
-Definition run_inlines (o : iopts) (u : oracle) (content : bytes) (lo : list N) (start_line : N)
+Definition run_inlines_gen (memo : bool) (o : iopts) (u : oracle) (content : bytes) (lo : list N) (start_line : N)
            (refmap : list (bytes * (bytes * bytes))) (maxref refsize0 : N) : res outcome :=
   let inp := rtrim_slice content in
   if has_nul inp then Ok (OutOfScope "NUL byte in block content (feed replaces NUL)")
   else
-    do r <- parse_inlines o u inp lo start_line refmap maxref refsize0;
+    do r <- parse_inlines memo o u inp lo start_line refmap maxref refsize0;
     Ok (Done (fst r) (snd r)).
 
 (* ================================================================== postprocess_text_nodes (parser/mod.rs)
@@ -1549,3 +1551,5 @@ Fixpoint fn_resolve (fold : bytes -> bytes) (defs : list bytes) (n : node) : nod
     | _ => Node v sp (map (fn_resolve fold defs) ch)
     end
   end.
+
+Definition run_inlines := run_inlines_gen true.
